@@ -1,14 +1,237 @@
-import NfcVerif.Model.Connect
+import NfcVerif.Lemmas.Sense
+import NfcVerif.Lemmas.Connect
+/-!
+# C18 - connect() and sense() honour their documented contract
+
+Statements only; proofs in `Lemmas/Sense.lean`, `Lemmas/Connect.lean`.
+Models: `Model/Sense.lean` (`sense`, `listen`, `exchange`), `Model/Connect.lean`
+(`connect`, `_rdwr_connect`, `_llcp_connect`, `_card_connect`) - transcriptions of
+`src/nfc/clf/__init__.py` against a scripted world (every driver/collaborator call consumes one
+answer of the script `env` and is logged together with the answer; `terminate()` is the
+stream `ts`, an exhausted stream answers true).
+
+The theorems quantify over every option record `o` (which of rdwr/llcp/card, every callback
+absent or returning any of the seven result values, on-startup results, roles, target lists,
+iterations), every script `env` and every terminate stream `ts`.
+
+`mon log` is the monitor of the documented callback discipline (`Lemmas/Connect.lean`):
+on-startup first (llcp, rdwr, card, at most once each); then activations: on-discover (rdwr/card),
+on-connect only after a true on-discover of the same role (llcp: directly), on-release only - and as
+the next callback - after a true on-connect of the same role; nothing after the on-connect that
+returned false or the on-release that returned true.  `mon log = none` means the history is illegal.
+-/
 namespace NfcVerif.C18
-theorem connect_callback_order : True := trivial  -- STUB
-theorem release_iff_connect_true : True := trivial  -- STUB
-theorem connect_return_table_partial : True := trivial  -- STUB
-theorem connect_systemexit_counterexample : True := trivial  -- STUB
-theorem connect_listen_error_counterexample : True := trivial  -- STUB
-theorem connect_ends_after_terminate : True := trivial  -- STUB
-theorem connect_total : True := trivial  -- STUB
-theorem sense_first_in_order : True := trivial  -- STUB
-theorem sense_field_off_when_none : True := trivial  -- STUB
-theorem sense_no_raise_unsupported : True := trivial  -- STUB
-theorem exchange_no_stale_target : True := trivial  -- STUB
+open NfcVerif NfcVerif.Clf
+
+/-! ## connect() -/
+
+/-- The callbacks of every run come in the documented order. -/
+theorem connect_callback_order (o : Opts) (env : List Ans) (ts : List Bool) :
+    (mon (connect o env ts).2.log).isSome = true := by
+  obtain ⟨q, h, _⟩ := connect_spec o env ts
+  simp [h]
+
+/-- For every role: on-release ran exactly once for every on-connect that returned a true value,
+whenever connect() ended by returning None, an object or on-release's value; when it ended through
+an exception (returned False, or the exception escaped) at most one on-release is missing - the one
+of the activation the exception interrupted.  ("Never otherwise" is `connect_callback_order`: the
+monitor admits on-release only directly after a true on-connect of the same role.) -/
+theorem release_iff_connect_true (o : Opts) (env : List Ans) (ts : List Bool) (r : Role) :
+    let log := (connect o env ts).2.log
+    log.countP (isRelease r) ≤ log.countP (isConnTrue r) ∧
+    log.countP (isConnTrue r) ≤ log.countP (isRelease r) + 1 ∧
+    (∀ v, (connect o env ts).1 = .ret v → log.countP (isRelease r) = log.countP (isConnTrue r)) := by
+  obtain ⟨q, h, hout⟩ := connect_spec o env ts
+  have hc := runFrom_counts r _ (.su 0) q h
+  have h0 : owed r (.su 0) = 0 := rfl
+  rw [h0] at hc
+  have hq : owed r q ≤ 1 := by cases q <;> simp [owed]; split <;> omega
+  refine ⟨by omega, by omega, ?_⟩
+  intro v hv
+  rw [hv] at hout
+  have : owed r q = 0 := by
+    cases v with
+    | none => rcases hout with h | ⟨k, h⟩ <;> subst h <;> rfl
+    | obj r' => simp only at hout; subst hout; rfl
+    | val r' v => obtain ⟨_, h⟩ := hout; subst h; rfl
+  omega
+
+/-- The return value table of the documentation, read off the history:
+* None: the last callback/terminate event is a true `terminate()` - or no option survived on-startup;
+* the Tag / LogicalLinkController / TagEmulation object of role r: the last callback is the on-connect
+  of r and it returned a false value;
+* otherwise the (true) value on-release of role r returned - `True` for the default on-release;
+* False: exactly for IOError, UnsupportedTargetError, KeyboardInterrupt.
+PARTIAL: exceptions of other classes leave connect() (`.raised`): the SystemExit of the link loop
+(F21), a CommunicationError raised inside listen() (F30) - see the two counter-examples - and the
+argument errors TypeError (on-startup returned a non-iterable) / ValueError (a single target with
+invalid attributes, a LocalTarget of unknown technology).  Nothing is claimed about which of them
+occur, only that they are not among the three caught classes. -/
+theorem connect_return_table_partial (o : Opts) (env : List Ans) (ts : List Bool) :
+    ∃ q, mon (connect o env ts).2.log = some q ∧
+      (match (connect o env ts).1 with
+       | .ret .none => q = .idle true ∨ ∃ k, q = .su k
+       | .ret (.obj r) => q = .finObj r
+       | .ret (.val r v) => v.truthy = true ∧ q = .finRel r v.code
+       | .caught e => isCaught e = true
+       | .raised e => isCaught e = false) :=
+  connect_spec o env ts
+
+/-- the full statement ("connect() never raises") is false on the current code -/
+def ConnectNeverRaises : Prop := ∀ o env ts e, (connect o env ts).1 ≠ .raised e
+
+def llcpOnly : Opts := ⟨none, some ⟨none, .absent, .absent, .initiator⟩, none⟩
+def cardDep : Opts := ⟨none, none, some ⟨some (.proper, 0), .dep, .absent, .absent, .absent⟩⟩
+
+/-- F21: SystemExit from the link loop leaves connect() -/
+theorem connect_systemexit_counterexample : ¬ ConnectNeverRaises := by
+  intro h
+  exact h llcpOnly [.found default, .sysExit] [false, false] .systemExit (by decide)
+
+/-- F30: a CommunicationError raised inside listen() leaves connect() -/
+theorem connect_listen_error_counterexample :
+    (connect cardDep [.nothing, .listenErr] [false, false]).1 = .raised .brokenLink := by decide
+
+/-- connect() ends: the main loop needs at most one round per false answer of terminate() plus one,
+for every surviving option set, script and stream (the model's fuel `ts.length + 1` is never used up). -/
+theorem connect_total (o : Opts) (env : List Ans) (ts : List Bool) (l : Live) (s : St)
+    (h : startupPhase o (St.init env) = (.ok l, s)) :
+    (mainLoop l (ts.length + 1) ts s).isSome = true := by
+  obtain ⟨⟨k, hk⟩, _⟩ := startupPhase_mon o env
+  rw [h] at hk
+  obtain ⟨r, s', hm, _⟩ := mainLoop_spec l (ts.length + 1) ts s (.su k) (by omega) hk rfl
+  simp [hm]
+
+/-- PARTIAL (promptness): once `terminate()` answers true at the head of the loop connect() returns
+None with no further event, and no step hands back more terminate answers than it was given (so
+every false answer is used at most once).  NOT proved: the bound on the events between a true answer
+given INSIDE a step (presence loop, link loop, card loop) and the end - at most 24 events, checked by
+the oracle on every run (`not-prompt-after-terminate`). -/
+theorem connect_ends_after_terminate_partial (l : Live) (k : Nat) (rest : List Bool) (s : St) :
+    mainLoop l (k + 1) [] s = some (.ok .none, s.emit (.term true)) ∧
+    mainLoop l (k + 1) (true :: rest) s = some (.ok .none, s.emit (.term true)) ∧
+    (∀ o ts q, mon s.log = some q → q.idleLike = true → (rdwrStep o ts s).2.2.length ≤ ts.length) ∧
+    (∀ o ts q, mon s.log = some q → q.idleLike = true → (llcpStep o ts s).2.2.length ≤ ts.length) ∧
+    (∀ o ts q, mon s.log = some q → q.idleLike = true → (cardStep o ts s).2.2.length ≤ ts.length) := by
+  refine ⟨rfl, rfl, ?_, ?_, ?_⟩
+  · intro o ts q h1 h2; obtain ⟨_, _, _, h⟩ := rdwrStep_spec o ts s q h1 h2; exact h
+  · intro o ts q h1 h2; obtain ⟨_, _, _, h⟩ := llcpStep_spec o ts s q h1 h2; exact h
+  · intro o ts q h1 h2; obtain ⟨_, _, _, h⟩ := cardStep_spec o ts s q h1 h2; exact h
+
+/-! ## sense() / listen() / exchange() -/
+
+/-- `sense()` with RemoteTarget arguments, from any state (any earlier history): the driver is
+called in the order given - `mute`, then per iteration the targets whose arguments are valid, then
+`mute` - and the call stops at the FIRST call that produced an acceptable target: the returned
+target is the product of the last call, no earlier call of this `sense()` produced one. -/
+theorem sense_first_in_order (tl : List TgtSpec) (iters : Int) (s : St)
+    (hnt : tl.any (· == .notTarget) = false) :
+    ∃ seg, (sense tl iters s).2.log = s.log ++ seg ∧ sitesOf seg <+: senseOrder tl iters ∧
+      (∀ x, (sense tl iters s).1 = .ok (some x) →
+        ∃ pre e, seg = pre ++ [e] ∧ validFind e = true ∧ (∀ y ∈ pre, validFind y = false) ∧
+          x.1 + 1 = (sense tl iters s).2.n) ∧
+      ((sense tl iters s).1 = .ok none → ∀ e ∈ seg, validFind e = false) := by
+  obtain ⟨⟨seg, h1, h2, _, _, h5, h6⟩, _⟩ := sense_spec tl iters s hnt
+  refine ⟨seg, h1, h2, ?_, ?_⟩
+  · intro x hx
+    obtain ⟨pre, e, a, b, c, d, _⟩ := h5 x hx
+    exact ⟨pre, e, a, b, c, d⟩
+  · intro hn
+    exact (h6 (by intro x hx; rw [hn] at hx; cases hx)).1
+
+theorem getLast_snoc {α} (l : List α) (a : α) : (l ++ [a]).getLast? = some a := by
+  induction l with
+  | nil => rfl
+  | cons b r ih => cases r with
+    | nil => rfl
+    | cons c r' => simpa [List.getLast?] using ih
+
+theorem senseOrder_last (tl : List TgtSpec) (iters : Int) : (senseOrder tl iters).getLast? = some .mute := by
+  have hk : ∃ k, (max 1 iters).toNat = k + 1 := ⟨(max 1 iters).toNat - 1, by omega⟩
+  obtain ⟨k, hk⟩ := hk
+  unfold senseOrder
+  rw [hk]
+  by_cases hemp : tl.isEmpty = true
+  · have : callOrder tl (k + 1) = [] := by
+      have : tl = [] := by simpa using hemp
+      subst this
+      simp [callOrder, iterOrder, reach]
+    rw [this]; rfl
+  · have : callOrder tl (k + 1) = callOrder tl k ++ (reach tl ++ [.mute]) := by
+      simp [callOrder, List.replicate_succ', iterOrder, hemp]
+    rw [this, show (Site.mute :: (callOrder tl k ++ (reach tl ++ [Site.mute])))
+      = (Site.mute :: (callOrder tl k ++ reach tl)) ++ [Site.mute] by simp]
+    exact getLast_snoc _ _
+
+/-- When nothing was found the last driver call is `mute`: the field is off. -/
+theorem sense_field_off_when_none (tl : List TgtSpec) (iters : Int) (s : St)
+    (hnt : tl.any (· == .notTarget) = false) (hn : (sense tl iters s).1 = .ok none) :
+    ∃ seg, (sense tl iters s).2.log = s.log ++ seg ∧ (sitesOf seg).getLast? = some .mute := by
+  obtain ⟨⟨seg, h1, _, h3, _⟩, _⟩ := sense_spec tl iters s hnt
+  exact ⟨seg, h1, by rw [h3 hn]; exact senseOrder_last tl iters⟩
+
+/-- With two or more targets `sense()` raises only what the device raises (IOError,
+KeyboardInterrupt): never UnsupportedTargetError, never the ValueError of an invalid target
+(after the repair of F24), never a CommunicationError. -/
+theorem sense_no_raise_unsupported (tl : List TgtSpec) (iters : Int) (s : St)
+    (hnt : tl.any (· == .notTarget) = false) (h2 : 2 ≤ tl.length) (e : Exc)
+    (he : (sense tl iters s).1 = .error e) : e = .io 5 ∨ e = .keyboardInterrupt := by
+  obtain ⟨_, herr⟩ := sense_spec tl iters s hnt
+  rcases herr e he with h | h | ⟨h, _⟩
+  · exact Or.inl h
+  · exact Or.inr h
+  · have : (tl.length == 1) = false := by simp; omega
+    rw [this] at h; cases h
+
+/-- `exchange()` never uses a target of an earlier `sense()`/`listen()`: from ANY state `s` (any
+history, any stale `self.target`), after `sense()` or `listen()` the frontend's target is exactly the
+target this call returned - created by an answer consumed during this call - or none; and
+`exchange()` drives the device only with the current target (no driver call without one). -/
+theorem exchange_no_stale_target (s : St) :
+    (∀ tl iters, tl.any (· == .notTarget) = false →
+      (∀ x, (sense tl iters s).1 = .ok (some x) →
+        (sense tl iters s).2.target = .remote x.1 ∧ s.n ≤ x.1 ∧ x.1 < (sense tl iters s).2.n) ∧
+      ((∀ x, (sense tl iters s).1 ≠ .ok (some x)) → (sense tl iters s).2.target = .none)) ∧
+    (∀ t,
+      (∀ x, (listen t s).1 = .ok (some x) →
+        (listen t s).2.target = .loc x.1 ∧ s.n ≤ x.1 ∧ x.1 < (listen t s).2.n) ∧
+      ((∀ x, (listen t s).1 ≠ .ok (some x)) → (listen t s).2.target = .none)) ∧
+    ((exchange s).2.target = s.target ∧
+      (match s.target with
+       | .none => exchange s = (.ok none, s)
+       | .remote id => ∃ a, (exchange s).2.log = s.log ++ [.call (.cmdRsp id) a]
+       | .loc id => ∃ a, (exchange s).2.log = s.log ++ [.call (.rspCmd id) a])) := by
+  refine ⟨?_, ?_, exchange_spec s⟩
+  · intro tl iters hnt
+    obtain ⟨⟨seg, _, _, _, _, h5, h6⟩, _⟩ := sense_spec tl iters s hnt
+    constructor
+    · intro x hx
+      obtain ⟨_, _, _, _, _, hid, hge, htg⟩ := h5 x hx
+      exact ⟨htg, hge, by omega⟩
+    · intro hx; exact (h6 hx).2
+  · intro t
+    obtain ⟨_, _, h3, h4⟩ := listen_spec t s
+    exact ⟨h3, h4⟩
+
+/-! ## Non-vacuity: concrete runs -/
+
+def rdwrAll : Opts :=
+  ⟨some ⟨some (.proper, 0), [.a 0, .b], .ret .true_, .ret .true_, .ret .true_, 1, true⟩, none, none⟩
+def good : Ans := .found ⟨[0x44, 0x00], [], false, 0⟩
+
+/-- a tag is found by the second target, stays for one presence check, then terminate() turns true -/
+example : (connect rdwrAll [.nothing, .nothing, good, good, .nothing, good] [false, false, true]).1
+    = .ret (.val .rdwr .true_) := by decide
+example : (mon (connect rdwrAll [.nothing, .nothing, good, good, .nothing, good] [false, false, true]).2.log)
+    = some (.finRel .rdwr 2) := by decide
+/-- a device IOError during the presence check: False, and the on-release is missing -/
+example : (connect rdwrAll [.nothing, .nothing, good, good, .nothing, .ioError] [false, false, true]).1
+    = .caught (.io 5) := by decide
+example : (mon (connect rdwrAll [.nothing, .nothing, good, good, .nothing, .ioError] [false, false, true]).2.log)
+    = some (.conn .rdwr) := by decide
+/-- sense: the first target is invalid (3 byte sel_req) and is ignored, the second finds a tag -/
+example : (sense [.a 3, .b] 2 (St.init [.nothing, good])).1 = .ok (some (1, ⟨[0x44, 0x00], [], false, 0⟩)) := by decide
+example : (sense [.a 3] 2 (St.init [.nothing, good])).1 = .error .value := by decide
+example : (sense [.unknown, .f] 1 (St.init [])).1 = .ok none := by decide
+
 end NfcVerif.C18
